@@ -191,7 +191,15 @@ type Lemma struct {
 	Text string
 }
 
+type AssignSet struct {
+	P      Pos
+	Name   string
+	Params []Param
+	Desigs []*Desig
+}
+
 type SpecFile struct {
+	ASets     []*AssignSet
 	Funcs     []*SpecFunc
 	Ghosts    []*GhostField
 	Contracts []*Contract
@@ -373,7 +381,7 @@ var clauseKeywords = map[string]bool{
 	"requires": true, "ensures": true, "assigns": true, "panics": true, "decreases": true,
 	"loop": true, "dispatch": true, "like": true, "inline": true, "trusted": true,
 	"func": true, "extern": true, "spec": true, "ghost": true, "lemma": true, "bvtype": true,
-	"invariant": true, "cut": true, "globalfact": true, "noalloc": true, "at": true, "tags": true,
+	"invariant": true, "cut": true, "globalfact": true, "frame": true, "noalloc": true, "at": true, "tags": true,
 }
 
 // startsItem reports whether the current token begins a new clause/item (keyword at
@@ -458,6 +466,22 @@ func parseSpecFile(file string, lines []string, lineNos []int) (sf *SpecFile, er
 		case "globalfact":
 			lx.next()
 			sf.GFacts = append(sf.GFacts, lx.parseClause())
+		case "frame":
+			lx.next()
+			as := &AssignSet{P: lx.pos()}
+			as.Name = lx.next().text
+			as.Params = lx.parseParams()
+			lx.expect(":=")
+			for {
+				p := lx.pos()
+				from := lx.i
+				e := lx.parseUnary()
+				as.Desigs = append(as.Desigs, &Desig{P: p, E: e, Text: lx.exprText(from, lx.i)})
+				if !lx.accept(",") {
+					break
+				}
+			}
+			sf.ASets = append(sf.ASets, as)
 		case "spec":
 			sf.Funcs = append(sf.Funcs, lx.parseSpecFunc())
 		case "ghost":
@@ -609,7 +633,7 @@ func (lx *lexer) parseContract() *Contract {
 			lx.fail("unexpected token %q in contract of %s", t.text, c.FuncName)
 		}
 		switch t.text {
-		case "func", "extern", "spec", "ghost", "lemma", "bvtype", "globalfact":
+		case "func", "extern", "spec", "ghost", "lemma", "bvtype", "globalfact", "frame":
 			return c
 		case "requires":
 			lx.next()
